@@ -73,6 +73,7 @@ func honestProposalWith(t *testing.T, only []types.TxType, steps int, params fun
 	rapid.Check(t, func(t *rapid.T) {
 		nontrivialProposals := 0
 		opt := sim.Options{MinActors: 3, MaxActors: 10, Replicas: 2, MaxReplicas: 5, Steps: steps, MaxTxPerStep: 8, Zones: true, Restarts: true, OnlyTypes: only, Params: params}
+		opt.LateBatches = true
 		if tune != nil {
 			tune(&opt)
 		}
